@@ -160,17 +160,18 @@ def gen_file_cases(name, scan, tier, rng, small):
         if f["val"] != NPOS:
             vals.append(("empty", NPOS))
         vals.append(("count", n))
-        if tier != "quick" or (f["off"] // 4) % 2 == 0:
+        one_beyond = tier == "quick" or big
+        if not one_beyond or (f["off"] // 4) % 2 == 0:
             vals.append(("beyond", n + 5))
-        if tier != "quick" or (f["off"] // 4) % 2 == 1:
+        if not one_beyond or (f["off"] // 4) % 2 == 1:
             vals.append(("beyond", 0x7FFFFFFF))
         if f["owner"] >= 0 and f["val"] != f["owner"]:
             vals.append(("self", f["owner"]))
         chain = anc.get(f["owner"], [])
         if tier == "quick" and len(chain) > 3:
             chain = chain[:2] + chain[-1:]          # parent, grandparent, root
-        elif big and len(chain) > 4:
-            chain = chain[:2] + [chain[len(chain) // 2]] + chain[-1:]
+        elif big and len(chain) > 3:
+            chain = chain[:2] + chain[-1:]
         for a in chain:
             if a != f["val"]:
                 vals.append(("ancestor", a))
@@ -198,7 +199,7 @@ def gen_file_cases(name, scan, tier, rng, small):
         nmulti = 12 if small else 3
     else:
         for f in fields:
-            arb = [("inrange", v) for v in range(n) if v != f["val"]] if n <= 24 else arbitrary(f, 4 if big else 6)
+            arb = [("inrange", v) for v in range(n) if v != f["val"]] if n <= 24 else arbitrary(f, 2 if big else 6)
             for kind, v in fixed_kinds(f) + arb:
                 out.append({"file": name, "at": [(f["off"], v)], "kind": kind})
         nmulti = 120 if n <= 24 else 40
@@ -580,7 +581,7 @@ def run(tier, seed, replay=None):
     cov.update({
         "evaluations": len(specs),
         "distinct_nontrivial": len(nontriv),
-        "rule": "per sample / API-synthesised file: every block-reference field found by the reference hook in the raw-saved file (quick: all fields of files <= 30 KB, 6 random fields of larger ones; thorough: all fields of all files) x {empty, count, count+5 / 0x7FFFFFFF (quick: one of the two per field), owner itself, each tree ancestor of the owner (quick: parent, grandparent, root), in-range indices (quick: 2 per field: another block of the same type as the current target when there is one, and one of another type; thorough: every index when the file has <= 24 blocks, else 6 (4 and at most 4 ancestors for the three files with more than 150 reference fields))} + seeded random pairs/triples; API-built collision structures with every reference x every value; a case is non-trivial when the patched file loaded, its dumped graph differs from the uncorrupted file's and the whole battery ran; distinct = distinct case specifications",
+        "rule": "per sample / API-synthesised file: every block-reference field found by the reference hook in the raw-saved file (quick: all fields of files <= 30 KB, 6 random fields of larger ones; thorough: all fields of all files) x {empty, count, count+5 and 0x7FFFFFFF (quick: one of the two per field), owner itself, each tree ancestor of the owner (quick: parent, grandparent, root), in-range indices (quick: 2 per field: another block of the same type as the current target when there is one, and one of another type; thorough: every index when the file has <= 24 blocks, else 6 (for the three files with more than 150 reference fields: 2, one of the two 'beyond' values, and parent/grandparent/root as ancestors))} + seeded random pairs/triples; API-built collision structures with every reference x every value; a case is non-trivial when the patched file loaded, its dumped graph differs from the uncorrupted file's and the whole battery ran; distinct = distinct case specifications",
         "samples": [mk("battery", s) for s in (specs[:2] + specs[len(specs) // 2:len(specs) // 2 + 2] + specs[-2:])],
         "input_distribution": {"files": len(scans), "reference_fields_per_file": nfields, "reference_fields": sum(nfields.values()),
                                "cases_per_kind": kinds, "files_with_baseline_flags": {f: v for f, v in file_flags.items() if v}},
